@@ -149,12 +149,13 @@ def directory_rules(ctx: Ctx) -> None:
     s2 = op.param_names()[0]
     oc = [c for c in calls(op) if callee_name(ctx, op, c) == "simfile:open"]
     c = one(oc, f"simfile.open call in {op.fq}")
-    fs = [(ast.unparse(x), pol) for x, pol in facts(ctx, op, c)]
+    from ..flow import inline as _inl_op  # a local that holds self.simfile_path (read once, nothing stored in between) stands for it
+    fs = [(ast.unparse(_inl_op(x, op)), pol) for x, pol in facts(ctx, op, c)]
     ctx.expect("R-ORDER", op, "FileNotFoundError guard precedes the open", (f"{s2}.simfile_path", True) in fs, str(fs), "simfile.open is reachable with no simfile path", node=c)
     rs = [r for r in body_walk(op.node) if isinstance(r, ast.Raise) and ast.unparse(r.exc.func if isinstance(r.exc, ast.Call) else r.exc) == "FileNotFoundError"]
-    okf = any((f"{s2}.simfile_path", False) in [(ast.unparse(x), pol) for x, pol in facts(ctx, op, r)] for r in rs)
+    okf = any((f"{s2}.simfile_path", False) in [(ast.unparse(_inl_op(x, op)), pol) for x, pol in facts(ctx, op, r)] for r in rs)
     ctx.expect("R-TABLE", op, "a directory without a simfile raises FileNotFoundError on open", okf, "", "", node=op.node)
-    ctx.expect("R-FWD", op, "open() opens the preferred simfile path", bool(c.args) and ast.unparse(c.args[0]) == f"{s2}.simfile_path", "", f"{src(c)}", node=c)
+    ctx.expect("R-FWD", op, "open() opens the preferred simfile path", bool(c.args) and ast.unparse(_inl_op(c.args[0], op)) == f"{s2}.simfile_path", "", f"{src(c)}", node=c)
     rr = [r for r in body_walk(op.node) if isinstance(r, ast.Return)]
     ctx.expect("R-FWD", op, "open() returns the loaded simfile", len(rr) == 1 and rr[0].value is c, "", "", node=op.node)
     sp_ = p.func(f"{SD}.simfile_path")
